@@ -147,6 +147,46 @@ func TestC14_ReplayDeterminism(t *testing.T) {
 	})
 }
 
+// ---- wall clock
+
+const ruleWallClock = "the same script (same generator as TestC14_ReplayDeterminism, 6-14 steps) is executed twice in this process on chains whose clock is placed at the " +
+	"machine's wall clock: the first block after the set-up is stamped about 3 s in the future of the first run, and the second run starts 15 s later, so that every header " +
+	"and block time of the first steps (BSC headers every 3 s, blocks every 5 s) lies in the future of the first run and in the past of the second; all ABCI responses " +
+	"must be identical; non-trivial = script with a client update (BSC, ETH, Tendermint or TSS); distinct by set of kinds"
+
+// TestC14_WallClock: block processing must not look at the node's wall clock. The relation needs the wall clock itself as an
+// input (the script is a function of the tape and of the moment the case starts), so this is the one place where the harness
+// reads it; a failure reproduces from its tape at any later time because everything is placed relative to "now".
+func TestC14_WallClock(t *testing.T) {
+	r := rec.For("TestC14_WallClock", ruleWallClock)
+	defer func() { scenarioStart = time.Time{} }()
+	scenarioStart = time.Time{}
+	runScenario(&Tape{Vals: make([]uint32, 64)}, 0, nodeProfile{}) // measures scenarioSetupSpan (the all-zero tape is a valid script)
+	span := scenarioSetupSpan
+	rapid.Check(t, func(t *rapid.T) {
+		steps := rapid.IntRange(6, 14).Draw(t, "steps")
+		rc := &rapidChooser{t: t}
+		scenarioStart = time.Now().UTC().Add(3*time.Second - span).Truncate(time.Second)
+		trA, kinds := runScenario(rc, steps, nodeProfile{})
+		time.Sleep(time.Until(scenarioStart.Add(span + 18*time.Second)))
+		trB, _ := runScenario(&Tape{Vals: rc.tape}, steps, nodeProfile{})
+		if d := firstDiff(trA, trB); d != "" {
+			t.Fatalf("the same script gives different results 15 s later on the wall clock (chain clock at the wall clock, genesis time %s): %s", scenarioStart, d)
+		}
+		var ks []string
+		upd := false
+		for k := range kinds {
+			ks = append(ks, k)
+			r.LabelN(k, kinds[k])
+			upd = upd || strings.HasPrefix(k, "MsgUpdateClient(")
+		}
+		sort.Strings(ks)
+		r.Case(strings.Join(ks, ","), upd, func() interface{} {
+			return map[string]interface{}{"steps": steps, "kinds": kinds, "responses": len(trA), "trace_digest": traceDigest(trA)}
+		})
+	})
+}
+
 // ---- proof-of-work path of the ETH client (environment touch point)
 
 func powScenario() []string {
